@@ -426,6 +426,7 @@ func (r *run) oracleSetupTxs() []*transaction.Transaction {
 // produce builds, signs and adds the next block on P and records the reference observation.
 func (r *run) produce(bp BlockPlan, pre []*transaction.Transaction) (*block.Block, bool) {
 	P := r.P
+	P.Enter()
 	bc := P.BC
 	if r.plan.OracleSetup > 0 && bc.BlockHeight() == 3 {
 		pre = append(pre, r.oracleSetupTxs()...)
@@ -710,6 +711,7 @@ func (r *run) runReplicated() {
 
 // feed gives block b to replica n with its preload / flush / restart policy and compares observations.
 func (r *run) feed(n *Node, b *block.Block) {
+	n.Enter()
 	l := n.Local
 	switch l.Preload {
 	case 1, 2:
@@ -727,9 +729,8 @@ func (r *run) feed(n *Node, b *block.Block) {
 		}
 	}
 	var err error
-	if r.tape.Chance(1, 4) {
-		// this node's process-wide caches are cold (all simulated nodes share one process: the cache of decoded public
-		// keys is the only process-global mutable state of a node, and it must be transparent)
+	if r.tape.Chance(1, 12) {
+		// the node's cache of decoded public keys has evicted everything (it must be transparent)
 		keys.VerifPurgeKeyCache()
 		r.out.Probes["key_cache_purged"]++
 	}
